@@ -1,0 +1,82 @@
+//go:build verif
+
+// Contracts for package validators, checked by /verif (ssovc). Comment-only file.
+package validators
+
+// $okcount: ghost history counter on a session object — the number of Validate calls it has passed.
+//@ type Validator
+//@   ghost field $okcount int
+
+//@ interface Validator.Validate(s *sessions.SessionState) error
+//@   modifies s.Groups, s.$okcount
+//@   ensures s.$okcount == old(s.$okcount) + (result == nil ? 1 : 0)
+//@   ensures !typeis(this, "validators.EmailGroupValidator") ==> ((result == nil) <==> vpass(this.tag, this.pay, s.Email))
+//@   ensures !typeis(this, "validators.EmailGroupValidator") ==> s.Groups == old(s.Groups)
+
+//@ func (v EmailAddressValidator) validate(session *sessions.SessionState) error
+//@   modifies nothing
+//@   ensures found: result == nil <==> exists i :: 0 <= i && i < len(v.AllowedEmails) && lower(session.Email) == v.AllowedEmails[i]
+//@   ensures denied: result != nil ==> result == ErrEmailAddressDenied
+//@   loop 1
+//@     invariant forall j :: 0 <= j && j < $i ==> lower(session.Email) != v.AllowedEmails[j]
+
+//@ func (v EmailAddressValidator) Validate(session *sessions.SessionState) error
+//@   requires wfList(v.AllowedEmails)
+//@   requires forall i :: 0 <= i && i < len(v.AllowedEmails) ==> v.AllowedEmails[i] == lower(v.AllowedEmails[i])
+//@   modifies nothing
+//@   ensures [C11] exact_address: result == nil <==> addrOK(session.Email, v.AllowedEmails)
+//@   ensures [C11] empty_email: session.Email == "" ==> result == ErrInvalidEmailAddress
+
+//@ func NewEmailAddressValidator(allowedEmails []string) EmailAddressValidator
+//@   modifies nothing
+//@   ensures [C11] lowered: len(result.AllowedEmails) == len(allowedEmails) && forall i :: 0 <= i && i < len(allowedEmails) ==> result.AllowedEmails[i] == lower(allowedEmails[i])
+//@   loop 1
+//@     invariant len(emailAddresses) == $i
+//@     invariant forall j :: 0 <= j && j < $i ==> emailAddresses[j] == lower(allowedEmails[j])
+
+//@ func (v EmailDomainValidator) validate(session *sessions.SessionState) error
+//@   modifies nothing
+//@   ensures found: result == nil <==> exists i :: 0 <= i && i < len(v.AllowedDomains) && hasSuffix(lower(session.Email), v.AllowedDomains[i])
+//@   ensures denied: result != nil ==> result == ErrEmailDomainDenied
+//@   loop 1
+//@     invariant forall j :: 0 <= j && j < $i ==> !hasSuffix(lower(session.Email), v.AllowedDomains[j])
+
+//@ func NewEmailDomainValidator(allowedDomains []string) EmailDomainValidator
+//@   modifies nothing
+//@   ensures [C11] at_prefixed: len(result.AllowedDomains) == len(allowedDomains) && forall i :: 0 <= i && i < len(allowedDomains) ==> result.AllowedDomains[i] == (allowedDomains[i] == "*" ? "*" : "@" + lower(allowedDomains[i]))
+//@   loop 1
+//@     invariant len(emailDomains) == $i
+//@     invariant forall j :: 0 <= j && j < $i ==> emailDomains[j] == (allowedDomains[j] == "*" ? "*" : "@" + lower(allowedDomains[j]))
+
+//@ func (v EmailDomainValidator) Validate(session *sessions.SessionState) error
+//@   modifies nothing
+//@   ensures [C11] stored_rule: result == nil <==> domStored(session.Email, v.AllowedDomains)
+//@   ensures [C11] empty_email: session.Email == "" ==> result == ErrInvalidEmailAddress
+
+// The constructor and Validate together implement the documented rule (whole domain, case-insensitive):
+//@ lemmafn C11_domain_rule(e string, D []string, V []string)
+//@   requires wfList(D)
+//@   requires len(V) == len(D) && forall i :: 0 <= i && i < len(D) ==> V[i] == (D[i] == "*" ? "*" : "@" + lower(D[i]))
+//@   ensures [C11] whole_domain: domStored(e, V) <==> domOK(e, D)
+
+//@ lemmafn C11_address_rule(e string, A []string, V []string)
+//@   requires wfList(A)
+//@   requires len(V) == len(A) && forall i :: 0 <= i && i < len(A) ==> V[i] == lower(A[i])
+//@   ensures [C11] stored_is_lowered: wfList(V) && forall i :: 0 <= i && i < len(V) ==> V[i] == lower(V[i])
+//@   ensures [C11] exact_address: addrOK(e, V) <==> addrOK(e, A)
+
+//@ func (v EmailGroupValidator) validate(session *sessions.SessionState) error
+//@   modifies session.Groups
+//@   ensures [C11] group_rule: result == nil <==> (@ValidateGroup#1.2 == nil && @ValidateGroup#1.1)
+//@   ensures asked_for_this_user: called(@ValidateGroup#1) && arg(@ValidateGroup#1, 1) == session.Email && arg(@ValidateGroup#1, 2) == v.AllowedGroups
+//@   ensures groups_updated: result == nil ==> session.Groups == @ValidateGroup#1.0
+//@   ensures groups_kept: result != nil ==> session.Groups == old(session.Groups)
+
+//@ func RunValidators(validators []Validator, session *sessions.SessionState) []error
+//@   modifies session.Groups, session.$okcount
+//@   fresh result
+//@   ensures [C11 C06] counted: len(result) == len(validators) - (session.$okcount - old(session.$okcount))
+//@   ensures [C11] bounded: len(result) <= len(validators) && session.$okcount >= old(session.$okcount)
+//@   loop 1
+//@     invariant len(validatorErrors) == $i - (session.$okcount - old(session.$okcount))
+//@     invariant session.$okcount >= old(session.$okcount)
